@@ -35,13 +35,13 @@ def status_tables(chk, prog):
     code2var, rest, dup = tables.simple_map(m, key_kinds=("lit",))
     c2v = {}
     for code, val in code2var.items():
-        inner = tables.unwrap(val, "Ok")
+        inner = tables.unwrap_arm(prog, f, val, "Ok")
         ok = inner is not None and inner[0] == "path"
         chk.ob("R1.try_from.arm", f, f"code={code}", ok, "arm does not yield Ok(<StatusCode variant>)", where=prog.hir[f]["file"])
         if ok:
             c2v[code] = tables.variant_name(inner[1])
     for keys, guard, val, line in rest:
-        is_err = val[0] == "call" and tables.norm_path(val[1]) == "Err"
+        is_err = tables.is_err_arm(val)
         chk.ob("R1.try_from.rest", f, f"keys={keys}", is_err and keys == [("rest",)],
                "every code that is not a listed literal must map to Err", where=f"{prog.hir[f]['file']}:{line}")
     chk.ob("R1.try_from.has_rest", f, "wildcard->Err", any(k == [("rest",)] for k, _, _, _ in rest), "no catch-all Err arm")
